@@ -23,6 +23,8 @@ pub fn run_check(prop: &str, tier: Tier, seed: u64) -> i32 {
         "C11" => c11(tier, seed),
         "C12" => c12(tier, seed),
         "C13" => c13(tier, seed),
+        "C14" => c14(tier, seed),
+        "C15" => c15(tier, seed),
         other => harness_error(&format!("no check registered for {other}")),
     }
 }
@@ -32,6 +34,7 @@ pub fn replay(doc: &J) -> i32 {
     match prop {
         "C06" | "C16" => crate::driver::replay::<ChainScenario>(doc),
         "C10" | "C11" | "C12" | "C13" => crate::driver::replay::<crate::props_sched::SchedScenario>(doc),
+        "C14" | "C15" => crate::driver::replay::<StoreScenario>(doc),
         other => harness_error(&format!("replay: unknown property {other}")),
     }
 }
@@ -112,8 +115,15 @@ pub fn fix_early_window(p: &mut crate::chain::Preset, nt: u64) {
 fn c16(tier: Tier, seed: u64) -> i32 {
     let mut ctx = Ctx::new("C16", tier, seed);
     let n = ctx.n(4000, 300_000);
-    let opts = SwarmOpts { allow_tune0: false, max_tune: 50, max_draws: 12, allow_dim0: true, max_dim: 12, ..Default::default() };
-    chain_batch(&mut ctx, "C16", "swarm", "6 presets x all store_* flags x mass-matrix options x dimension 0..12, fault-free and natural divergences (funnel); non-trivial = history has a divergence or >1 transformation update", n, opts, |_cfg, _r| {});
+    let opts = SwarmOpts { allow_tune0: true, max_tune: 50, max_draws: 12, allow_dim0: true, max_dim: 12, ..Default::default() };
+    chain_batch(&mut ctx, "C16", "swarm", "6 presets x all store_* flags x mass-matrix options x dimension 0..12 x num_tune 0..50 (incl. 0), fault-free and natural divergences (funnel); in a third of the runs set_position is called again before a seeded draw (multi-step history: the rebuilt transformation must be reported exactly once); non-trivial = history has a divergence or >1 transformation update", n, opts, |cfg, r| {
+        if r.chance(0.2) {
+            retune(cfg, r.below(3));
+        }
+        if r.chance(0.33) && cfg.n_calls > 1 {
+            cfg.reinit_at = Some(r.range(1, cfg.n_calls - 1));
+        }
+    });
     let n2 = ctx.n(3000, 200_000);
     let opts = SwarmOpts { allow_tune0: false, max_tune: 40, max_draws: 10, max_dim: 6, ..Default::default() };
     chain_batch(&mut ctx, "C16", "with_faults", "as swarm plus 1..5 recoverable-class density faults (every kind) at seeded evaluation indices => divergent draws of every cause", n2, opts, |cfg, r| {
@@ -283,5 +293,117 @@ fn c13(tier: Tier, seed: u64) -> i32 {
     ctx.finish("fault_enumeration", components_engine_b(), vec![
         "a fault counts only if the stub recorded that it fired (a fault scheduled behind an abort or in a chain that stopped earlier does not)".into(),
         "abort() returning Ok after a chain reported an error on the results channel is not flagged: the statement's 'through wait_timeout/abort' is satisfied by wait_timeout (DESIGN.md §5 C13)".into(),
+    ], json!({}))
+}
+
+// ------------------------------------------------------------------------------------------------
+// engine C
+
+use crate::storesim::{Backend, StoreScenario};
+
+pub fn components_engine_c() -> J {
+    json!({
+        "real_code": ["storage backends under /repo/src/storage (HashMap, ndarray, Arrow, Zarr sync) driven through StorageConfig/TraceStorage/ChainStorage (hook H2), zarrs array code, the real chains that produce the recorded histories (statistics, Progress)"],
+        "stubs": ["density + expanded variables of every type/shape (harness)", "Zarr store: FaultStore over zarrs MemoryStore (write counting, k-th write fails, snapshots = what a fresh reader sees)"],
+        "seams": ["hash-map iteration order: getrandom shim + fresh OS thread per run (part of the seed)", "seeded interleaving of chains, flush and inspect calls", "store trait"],
+        "not_covered": ["CSV and async Zarr writers (see DESIGN.md)"],
+    })
+}
+
+pub fn gen_store(seed: u64, prop: &'static str, backends: &[Backend]) -> StoreScenario {
+    use crate::density::{VarSpec, VarType};
+    let mut rc = Prng::sub(seed, "config");
+    let mut rw = Prng::sub(seed, "workload");
+    let kind = *rc.pick(&crate::swarm::ALL_PRESETS);
+    let is_mclmc = matches!(kind, crate::swarm::PresetKind::DiagMclmc | crate::swarm::PresetKind::LowRankMclmc | crate::swarm::PresetKind::FlowMclmc);
+    let num_tune = *rc.pick(&[0u64, 1, 2, 3, 5, 8, 13, 20]);
+    let num_draws = *rc.pick(&[0u64, 1, 2, 3, 5, 8, 13]);
+    let num_draws = if num_tune + num_draws == 0 { 1 } else { num_draws };
+    let so = SwarmOpts::default();
+    let mut preset = crate::swarm::gen_preset(&mut rc, kind, num_tune, num_draws, &so);
+    let nc = rc.range(1, 4) as usize;
+    match &mut preset {
+        crate::chain::Preset::DiagNuts(s) => { s.num_chains = nc; s.maxdepth = s.maxdepth.min(4) }
+        crate::chain::Preset::LowRankNuts(s) => { s.num_chains = nc; s.maxdepth = s.maxdepth.min(4) }
+        crate::chain::Preset::FlowNuts(s) => { s.num_chains = nc; s.maxdepth = s.maxdepth.min(4) }
+        crate::chain::Preset::DiagMclmc(s) => s.num_chains = nc,
+        crate::chain::Preset::LowRankMclmc(s) => s.num_chains = nc,
+        crate::chain::Preset::FlowMclmc(s) => s.num_chains = nc,
+    }
+    let dim = if is_mclmc { rc.usize_in(2, 4) } else { rc.usize_in(1, 4) };
+    // targets: mostly well-behaved; funnel for natural divergences
+    let target = if dim >= 2 && rw.chance(0.3) { crate::density::Target::Funnel { dim } } else { crate::density::random_target(&mut rw, dim, false) };
+    // expanded variables of several types and shapes
+    let mut vars = vec![VarSpec { name: "value".into(), ty: VarType::F64, dims: vec!["dim".into()], special_permille: 0 }];
+    let mut extra_dims = vec![];
+    if rw.chance(0.7) {
+        extra_dims.push(("a".to_string(), rw.range(1, 3)));
+        extra_dims.push(("b".to_string(), rw.range(1, 3)));
+        let n = rw.range(1, 6);
+        for i in 0..n {
+            let ty = rw.pick(&[VarType::F64, VarType::F32, VarType::I64, VarType::U64, VarType::Bool, VarType::Str]).clone();
+            let dims: Vec<String> = if ty == VarType::Str { vec![] } else {
+                match rw.below(3) { 0 => vec![], 1 => vec!["a".into()], _ => vec!["a".into(), "b".into()] }
+            };
+            vars.push(VarSpec { name: format!("v{i}"), ty, dims, special_permille: if rw.chance(0.5) { 200 } else { 0 } });
+        }
+    }
+    let mut faults = vec![];
+    if rw.chance(0.5) {
+        for _ in 0..rw.range(1, 4) {
+            let kind = *rw.pick(&[crate::density::FaultKind::RecoverableErr, crate::density::FaultKind::NanLogp, crate::density::FaultKind::EnergyJump, crate::density::FaultKind::InfGrad]);
+            faults.push(crate::density::Fault { at: rw.below(150), kind });
+        }
+    }
+    let total = num_tune + num_draws;
+    StoreScenario {
+        prop: prop.to_string(),
+        preset,
+        target,
+        vars,
+        extra_dims,
+        density_faults: faults,
+        chain_seed: rw.next_u64(),
+        backends: backends.to_vec(),
+        chunk_size: *rc.pick(&[1u64, 2, 3, 5, 8, num_tune.max(1), num_draws.max(1), total + 7]),
+        store_warmup: !rc.chance(0.25),
+        ops_seed: rw.next_u64(),
+        prefix: if rw.chance(0.2) { Some(rw.below(total + 1)) } else { None },
+        flush_prob: if prop == "C15" { *rw.pick(&[0.3, 0.6, 1.0]) } else { *rw.pick(&[0.0, 0.1, 0.3]) },
+        inspect_prob: *rw.pick(&[0.0, 0.0, 0.1, 0.3]),
+        filesystem: false,
+        fail_write: None,
+    }
+}
+
+fn c14(tier: Tier, seed: u64) -> i32 {
+    let mut ctx = Ctx::new("C14", tier, seed);
+    let n = ctx.n(1500, 150_000);
+    ctx.run_batch("all_backends", "history = real chains (6 presets, 1..4 chains, num_tune/num_draws in {0,1,2,3,5,8,13,20}, natural and injected divergences, transformation updates) + expanded variables of every type (f64,f32,i64,u64,bool,string) and shape (scalar, vector, matrix) with NaN/inf/-0.0/empty/non-ASCII values; fed through the storage traits into HashMap, ndarray, Arrow and Zarr(sync, MemoryStore) in a seeded interleaving of chains with flush/inspect calls, aborted prefixes, chunk sizes, store_warmup on/off; each run in a fresh thread with seeded hash order; read-back (finalize and inspect; Zarr via a fresh zarrs reader on a store snapshot) compared value by value with the recording model; distinct = distinct history digest", n, |rs, _| {
+        gen_store(rs, "C14", &[Backend::HashMap, Backend::Arrow, Backend::Ndarray, Backend::ZarrSync])
+    });
+    ctx.finish("exploration", components_engine_c(), vec![
+        "the recording model is the list of values handed to record_sample".into(),
+        "NaN payloads are not compared (canonical NaN)".into(),
+        "ndarray stores events densely by draw; only the rows of draws on which a value was recorded are compared".into(),
+    ], json!({}))
+}
+
+fn c15(tier: Tier, seed: u64) -> i32 {
+    let mut ctx = Ctx::new("C15", tier, seed);
+    let n = ctx.n(800, 150_000);
+    ctx.run_batch("flush_points", "histories as C14; a flush (one chain or all, sometimes twice, also before any draw) follows recorded draws with probability 0.3/0.6/1.0 (=> a crash point after every draw), chunk sizes {1,2,3,5,8,num_tune,num_draws,larger than both}; after each flush a fresh zarrs reader on a snapshot of the store must see the acknowledged prefix of every chain (all earlier acknowledgements re-checked at every later flush and after finalize); non-trivial = at least one flush", n, |rs, _| {
+        gen_store(rs, "C15", &[Backend::ZarrSync])
+    });
+    let n2 = ctx.n(400, 80_000);
+    ctx.run_batch("store_write_faults", "as above with the k-th store write failing (k seeded over the run's writes): the failing call returns Err without panic and every prefix acknowledged by an earlier flush still reads back", n2, |rs, _| {
+        let mut sc = gen_store(rs, "C15", &[Backend::ZarrSync]);
+        let mut r = Prng::sub(rs, "storefault");
+        sc.fail_write = Some(r.below(400));
+        sc
+    });
+    ctx.finish("fault_enumeration", components_engine_c(), vec![
+        "crash = the process stops right after flush() returned; what survives is the store content at that moment (snapshot)".into(),
+        "async writer and filesystem store are not covered yet".into(),
     ], json!({}))
 }
